@@ -6,7 +6,9 @@ rows = []
 for m in sorted(glob.glob(os.path.join(HERE, 'seeded', '*', 'meta.json'))):
     d = json.load(open(m))
     runs = d.get('check_runs', [])
-    last = runs[-1] if runs else {}
+    own = [r for r in runs if r.get('check', d['property']) == d['property']]
+    other = [r for r in runs if r.get('check', d['property']) != d['property'] and r.get('detected')]
+    last = own[-1] if own else {}
     first_line = ''
     notes = d.get('needs_to_manifest', '')
     for ln in notes.split('\n'):
@@ -20,7 +22,8 @@ for m in sorted(glob.glob(os.path.join(HERE, 'seeded', '*', 'meta.json'))):
     if out and out[0].startswith('VIOLATION'):
         job = out[0].split('job=')[1].split()[0] if 'job=' in out[0] else ''
     rows.append((d['seed_id'], d['property'], first_line, 'yes' if d['confirmation'].get('confirmed') else 'NO',
-                 'DETECTED' if det else ('undecided' if rc == 2 else 'missed'), job, len(runs)))
+                 'DETECTED' if det else (('detected by ' + other[-1]['check']) if other else ('undecided' if rc == 2 else 'missed')),
+                 job, len(runs)))
 with open(os.path.join(HERE, 'seeded', 'SUMMARY.md'), 'w') as f:
     f.write('# Seeded changes and the checks that catch them\n\n')
     f.write('Each change was written by an independent sub-agent that saw only the property text and a scratch worktree; '
@@ -32,5 +35,6 @@ with open(os.path.join(HERE, 'seeded', 'SUMMARY.md'), 'w') as f:
         f.write('| %s | %s | %s | %s | %s | %s | %d |\n' % r)
     n = len(rows)
     k = sum(1 for r in rows if r[4] == 'DETECTED')
-    f.write('\n%d of %d seeded changes detected by the property\'s own check.\n' % (k, n))
+    k2 = sum(1 for r in rows if r[4].startswith('detected by'))
+    f.write('\n%d of %d seeded changes detected by the property\'s own check; %d more by the check of another property.\n' % (k, n, k2))
 print(open(os.path.join(HERE, 'seeded', 'SUMMARY.md')).read())
